@@ -32,14 +32,16 @@ InsSeq == SetToSeq(InsSeqs)
 
 \* selection universe
 C(s) == s
-Vals == {<<"a">>, <<"b">>, <<"a", "b">>, <<"b", "a">>, <<"a", "a">>}
+Vals == {<<"a">>, <<"b">>, <<"a", "b">>, <<"b", "a">>, <<"a", "a">>, <<"a", "=", "b">>}
 Res == {[k |-> "lit", s |-> <<"a">>], [k |-> "lit", s |-> <<"a", "b">>], [k |-> "pre", s |-> <<"a">>], [k |-> "suf", s |-> <<"a">>],
-        [k |-> "exact", s |-> <<"a", "b">>], [k |-> "dot"], [k |-> "empty"]}
+        [k |-> "exact", s |-> <<"a", "b">>], [k |-> "dot"], [k |-> "empty"],
+        \* a regexp that contains the character separating name and regexp
+        [k |-> "lit", s |-> <<"a", "=", "b">>], [k |-> "lit", s |-> <<"=">>]}
 Names == {"n", "m"}
 QualSets ==  \* cv forms: sequences of <<name, values>>
   { <<>>, << <<"n", <<<<"a">>>>>> >>, << <<"n", <<<<"a", "b">>>>>> >>, << <<"n", <<<<"b">>, <<"a">>>>>> >>,
     << <<"m", <<<<"b", "a">>>>>> >>, << <<"n", <<<<"b">>>>>>, <<"m", <<<<"a", "b">>>>>> >>,
-    << <<"n", <<<<"a", "a">>>>>>, <<"m", <<<<"b">>>>>> >> }
+    << <<"n", <<<<"a", "a">>>>>>, <<"m", <<<<"b">>>>>> >>, << <<"n", <<<<"a", "=", "b">>>>>> >>, << <<"m", <<<<"a">>, <<"a", "=", "b">>>>>> >> }
 TLocs == {Rg(0, 3, FALSE, FALSE), Rg(2, 5, TRUE, FALSE), Cp(Rg(1, 4, FALSE, FALSE)), Pt(4), Bw(2),
           Jn(<<Rg(0, 2, FALSE, FALSE), Rg(4, 6, FALSE, FALSE)>>), Jn(<<Cp(Pt(5)), Cp(Pt(1))>>), Jn(<<Pt(0), Cp(Pt(3))>>)}
 TKeys == {"gene", "cds"}
